@@ -38,6 +38,9 @@ TECH = {
  "C16": "runtime monitoring: exhaustive table sweep + probe matches",
  "C17": "runtime monitoring: differential against segmentation library",
 }
+LEVEL["C18"] = ("sorted-permutation / cancellation-report oracle on the par_quicksort facade over adversarial shapes, sizes, thread counts and logical cancellation moments; phase coverage through verif points; Miri + ASan on the raw-pointer code; thread-count determinism through Nucleo", "sec 5 C18")
+NOTE["C18"] = "trusted: the facade delegates to the private function unchanged; cancellation moments are logical (k-th comparison) or a racing thread; Miri only for slices <= 2000 (no rayon::join)"
+TECH["C18"] = "runtime monitoring: output oracle + sanitizers (Miri, ASan) + phase-coverage hooks"
 PENDING = {}
 
 def main():
@@ -64,7 +67,7 @@ def main():
             na.append({"property_id": pid, "reason": PENDING.get(pid, "monitor not built yet (work in progress, see DESIGN.md section 5)")})
     m = {
         "version": 1,
-        "setup_cmd": "./check build chk rel",
+        "setup_cmd": "./check build chk rel asan",
         "hooks": {
             "guard": "cargo feature verif-hooks (nucleo/verif-hooks enables nucleo-matcher/verif-hooks), off by default",
             "enable": "harness/Cargo.toml depends on /repo and /repo/matcher by path with features = [\"verif-hooks\"]; every check rebuilds with cargo from /repo's working tree",
@@ -80,8 +83,9 @@ def main():
     json.dump(m, open('MANIFEST.json', 'w'), indent=1)
     print(len(checks), "checks,", len(na), "not claimed")
 
-ENGINE = {}
+ENGINE = {"C18": "sort_mon"}
 ENGINES = [
+ {"name": "sort_mon", "path": "harness/src/bin/sort_mon.rs", "serves_properties": ["C18"], "kind_free_text": "parallel sort monitor (native chk/release, ASan, Miri) with phase hooks"},
  {"name": "matcher_mon", "path": "harness/src/bin/matcher_mon.rs", "serves_properties": ["C01", "C02", "C03", "C04", "C05", "C10", "C14", "C15", "C16", "C17"], "kind_free_text": "native differential/metamorphic monitors over generated inputs (debug-assertion+overflow-check and release builds)"},
 ]
 if __name__ == '__main__':
